@@ -238,6 +238,15 @@ func SystematicEdits(text string, f func(mutant string)) {
 	if n := len(lx.Toks); n > 0 {
 		f(text[:lx.Toks[n-1].End] + " ," + text[lx.Toks[n-1].End:])
 	}
+	// every truncation after a token and every start in the middle
+	for i, t := range lx.Toks {
+		if i < len(lx.Toks)-1 {
+			f(text[:t.End])
+		}
+		if i > 0 {
+			f(text[t.Pos:])
+		}
+	}
 	// every balanced bracket group deleted
 	var stack []int
 	for i, t := range lx.Toks {
@@ -298,6 +307,8 @@ var FuturePhrases = []string{
 	"DEFAULT 1", "IF EXISTS", "IF NOT EXISTS", "OR REPLACE", "CASCADE", "RESTRICT", "|> LIMIT 1", "|> ORDER BY a", "|> AGGREGATE COUNT(*) GROUP BY a", "|> EXTEND a AS b", "|> JOIN t2 USING (a)",
 	"|> SET a = 1", "|> DROP a", "|> RENAME a AS b", "|> AS t", "|> CALL f()", "|> UNION ALL (SELECT 1)", "|> TABLESAMPLE BERNOULLI (1 PERCENT)", "ASSERT_ROWS_MODIFIED 1", "ON CONFLICT DO NOTHING",
 	"RETURNING *", "USING (a)", "FETCH FIRST 1 ROWS ONLY", "EXCLUDE CURRENT ROW", "TREAT AS t", "CONTAINS KEY a", "GRAPH_TABLE (g MATCH (n) RETURN n.x)", "MERGE INTO t", "STORED", "VIRTUAL",
+	// ordinary clauses in places where they do not belong
+	"ORDER BY a", "GROUP BY a", "HAVING a", "WHERE a", "FROM t", "JOIN t2 ON a", "UNION ALL SELECT 1", "AS x", "SET a = 1", "VALUES (1)", "THEN RETURN a", "PRIMARY KEY (a)", "OPTIONS (a = 1)",
 }
 
 // PhraseInsertions inserts every future phrase before every token of text (and at its end).
@@ -316,3 +327,82 @@ func PhraseInsertions(text string, f func(mutant string)) {
 
 // HostilePrefixes are written in front of valid inputs (byte order mark, NBSP, zero width space, NUL, shebang ...).
 var HostilePrefixes = []string{"\ufeff", "\u00a0", "\u200b", "\x00", "\ufeff\ufeff", " \ufeff", "\ufeff ", "\ufeff\n", "\u2028", "\u3000", "\x1a", "\xef\xbb", "#!sql\n", "\r", "\v\f", "\xc2\x85", "\ufffe", "\x7f"}
+
+func isPlainWord(s string) bool {
+	if s == "" || s[0] >= '0' && s[0] <= '9' {
+		return false
+	}
+	for i := 0; i < len(s); i++ {
+		c := s[i]
+		if !(c == '_' || c >= 'a' && c <= 'z' || c >= 'A' && c <= 'Z' || c >= '0' && c <= '9') {
+			return false
+		}
+	}
+	return true
+}
+
+// QuoteWordEdits yields, for every word token (identifier, keyword, parameter or system-variable name), the text with
+// that word back-quoted in place.
+func QuoteWordEdits(text string, f func(mutant string)) {
+	lx := reflex.Lex(text)
+	if lx.Status != reflex.Accept {
+		return
+	}
+	for _, t := range lx.Toks {
+		w := text[t.Pos:t.End]
+		at := 0
+		for at < len(w) && at < 2 && w[at] == '@' {
+			at++
+		}
+		if isPlainWord(w[at:]) {
+			f(text[:t.Pos] + w[:at] + "`" + w[at:] + "`" + text[t.End:])
+		}
+	}
+}
+
+// WidenLists yields, for every bracket group ( ) [ ] { } of text that has content, the text with the group's last
+// top-level element written n more times (", elem"): every list of the sentence becomes a wide one in turn, inside
+// whatever construct it sits in. Elements are taken between top-level commas of the group.
+func WidenLists(text string, n int, f func(mutant string)) {
+	lx := reflex.Lex(text)
+	if lx.Status != reflex.Accept {
+		return
+	}
+	type open struct{ tok, lastComma int }
+	var stack []open
+	for i, t := range lx.Toks {
+		switch t.Kind {
+		case "(", "[", "{":
+			stack = append(stack, open{i, -1})
+		case ",":
+			if len(stack) > 0 {
+				stack[len(stack)-1].lastComma = i
+			}
+		case ")", "]", "}":
+			if len(stack) == 0 {
+				continue
+			}
+			o := stack[len(stack)-1]
+			stack = stack[:len(stack)-1]
+			first := o.tok + 1
+			if o.lastComma >= 0 {
+				first = o.lastComma + 1
+			}
+			if first >= i {
+				continue // empty group or trailing comma
+			}
+			elem := text[lx.Toks[first].Pos:lx.Toks[i-1].End]
+			if len(elem) > 200 {
+				continue
+			}
+			var sb strings.Builder
+			sb.WriteString(text[:lx.Toks[i-1].End])
+			for k := 0; k < n; k++ {
+				sb.WriteString(", ")
+				sb.WriteString(elem)
+			}
+			sb.WriteString(text[lx.Toks[i-1].End:])
+			f(sb.String())
+		}
+	}
+}
